@@ -1074,6 +1074,7 @@ func guardedBy(fn *ssa.Function, cut EdgeSet, target func(ssa.Instruction) bool)
 func boolImplies(fn *ssa.Function, v ssa.Value, useBlock *ssa.BasicBlock, isGuard VM, g EdgeSet) (bool, string) {
 	seen := map[ssa.Value]bool{}
 	var rec func(v ssa.Value, blk *ssa.BasicBlock) (bool, string)
+	var recFalse func(v ssa.Value, blk *ssa.BasicBlock, depth int) (bool, string)
 	blockGuarded := func(blk *ssa.BasicBlock) bool {
 		if len(fn.Blocks) == 0 {
 			return false
@@ -1124,10 +1125,53 @@ func boolImplies(fn *ssa.Function, v ssa.Value, useBlock *ssa.BasicBlock, isGuar
 				return rec(x.Y, blk)
 			}
 		}
+		// !x is true when x is false: every way for x to be false must pass the guard
+		if u, ok := v.(*ssa.UnOp); ok && u.Op == token.NOT {
+			if ok, _ := recFalse(u.X, blk, 0); ok {
+				return true, ""
+			}
+		}
 		if blockGuarded(blk) {
 			return true, ""
 		}
 		return false, fmt.Sprintf("value %s can be true without the guard", vstr(v))
+	}
+	// recFalse: v being false implies the guard.
+	recFalse = func(v ssa.Value, blk *ssa.BasicBlock, depth int) (bool, string) {
+		v = strip(v)
+		if depth > 8 {
+			return false, "too deep"
+		}
+		if vConstBool(true)(v) {
+			return true, ""
+		}
+		if vConstBool(false)(v) {
+			if blockGuarded(blk) {
+				return true, ""
+			}
+			return false, fmt.Sprintf("constant false reaches block %d without passing the guard", blk.Index)
+		}
+		switch x := v.(type) {
+		case *ssa.UnOp:
+			if x.Op == token.NOT {
+				return rec(x.X, blk)
+			}
+		case *ssa.Phi:
+			for i, e := range x.Edges {
+				pred := x.Block().Preds[i]
+				if edgeGuarded(fn, g, pred, x.Block()) {
+					continue
+				}
+				if ok, why := recFalse(e, pred, depth+1); !ok {
+					return false, why
+				}
+			}
+			return true, ""
+		}
+		if blockGuarded(blk) {
+			return true, ""
+		}
+		return false, fmt.Sprintf("value %s can be false without the guard", vstr(v))
 	}
 	return rec(v, useBlock)
 }
